@@ -331,7 +331,14 @@ class Interp:
             self.eval(s[1], env)
         elif k == "print":
             v = self.eval(s[1], env)
-            self.res.out.append(self.to_str(v))
+            # print runs with a stub frame of its own: a str() method it calls sees it in its traceback
+            saved = self.frames
+            self.frames = saved + [Frame("print", native=True, aid=saved[-1].aid, creator=saved[-1].creator)]
+            try:
+                text = self.to_str(v)
+            finally:
+                self.frames = saved
+            self.res.out.append(text)
         elif k == "let":
             v = self.eval(s[2], env) if s[2] is not None else None
             self.declare(env, s[1], v, module_level)
@@ -560,7 +567,7 @@ class Interp:
         k = e[0]
         if k == "num":
             return e[1]
-        if k == "str":
+        if k == "str" or k == "mlstr":
             return e[1]
         if k == "nil":
             return None
@@ -622,8 +629,10 @@ class Interp:
                     parts.append(self.str_of(v))
             return "".join(parts)
         if k == "lambda":
-            return LClosure(self.lambda_names.get(id(e), "lambda"), e[1], e[2], env, "lambda", None, self.module_name,
+            clo = LClosure(self.lambda_names.get(id(e), "lambda"), e[1], e[2], env, "lambda", None, self.module_name,
                             home=self.frames[-1].aid)
+            clo.def_line = self.frames[-1].line
+            return clo
         if k == "self":
             return self.frames_self(env)
         if k == "at":
@@ -956,6 +965,7 @@ class Interp:
         try:
             body = fn.body
             if body[0] == "expr":
+                frame.line = fn.def_line  # the expression sits on the line of the statement that holds the lambda
                 return self.eval(body[1], env)
             self.exec_block_in(body[1], env, False)
             if fn.kind == "init":
